@@ -7,6 +7,7 @@ import Rtcp.Spec.Padding
 import Rtcp.Spec.Rules
 import Rtcp.Spec.Decode
 import Rtcp.Spec.Framing
+import Rtcp.Impl.Setters
 
 namespace Driver
 open Rtcp Rtcp.Impl
@@ -38,13 +39,13 @@ def evalRb : Sexp → Option ReportBlockBuilder
     let s ← ssrc.toNat?
     calls.foldlM (fun (b : ReportBlockBuilder) c =>
       match c with
-      | .list [.atom "fl", n] => do pure { b with fractionLost := u8 (← n.toNat?) }
-      | .list [.atom "cl", n] => do pure { b with cumulativeLost := u32 (← n.toNat?) }
-      | .list [.atom "esn", n] => do pure { b with extendedSequenceNumber := u32 (← n.toNat?) }
-      | .list [.atom "jit", n] => do pure { b with interarrivalJitter := u32 (← n.toNat?) }
-      | .list [.atom "lsr", n] => do pure { b with lastSenderReportTimestamp := u32 (← n.toNat?) }
-      | .list [.atom "dlsr", n] => do pure { b with delaySinceLastSenderReportTimestamp := u32 (← n.toNat?) }
-      | _ => none) { ssrc := u32 s }
+      | .list [.atom "fl", n] => do pure (b.setFractionLost (u8 (← n.toNat?)))
+      | .list [.atom "cl", n] => do pure (b.setCumulativeLost (u32 (← n.toNat?)))
+      | .list [.atom "esn", n] => do pure (b.setExtendedSequenceNumber (u32 (← n.toNat?)))
+      | .list [.atom "jit", n] => do pure (b.setInterarrivalJitter (u32 (← n.toNat?)))
+      | .list [.atom "lsr", n] => do pure (b.setLastSenderReportTimestamp (u32 (← n.toNat?)))
+      | .list [.atom "dlsr", n] => do pure (b.setDelaySinceLastSenderReportTimestamp (u32 (← n.toNat?)))
+      | _ => none) (ReportBlockBuilder.new (u32 s))
   | _ => none
 
 def evalItem : Sexp → Option SdesItemBuilder
@@ -53,9 +54,9 @@ def evalItem : Sexp → Option SdesItemBuilder
     let v ← value.toBytes?
     calls.foldlM (fun (b : SdesItemBuilder) c =>
       match c with
-      | .list [.atom "prefix", p] => do pure { b with prefix_ := (← p.toBytes?) }
+      | .list [.atom "prefix", p] => do pure (b.setPrefix (← p.toBytes?))
       | .list [.atom "into_owned"] => pure b.intoOwned
-      | _ => none) { type := u8 t, value := v }
+      | _ => none) (SdesItemBuilder.new (u8 t) v)
   | _ => none
 
 def evalChunk : Sexp → Option SdesChunkBuilder
@@ -63,9 +64,9 @@ def evalChunk : Sexp → Option SdesChunkBuilder
     let s ← ssrc.toNat?
     calls.foldlM (fun (b : SdesChunkBuilder) c =>
       match c with
-      | .list [.atom "add_item", it] => do pure { b with items := b.items ++ [← evalItem it] }
-      | .list [.atom "add_item_owned", it] => do pure { b with items := b.items ++ [(← evalItem it).intoOwned] }
-      | _ => none) { ssrc := u32 s }
+      | .list [.atom "add_item", it] => do pure (b.addItem (← evalItem it))
+      | .list [.atom "add_item_owned", it] => do pure (b.addItemOwned (← evalItem it))
+      | _ => none) (SdesChunkBuilder.new (u32 s))
   | _ => none
 
 def evalFci : Sexp → Option FciB
@@ -92,7 +93,7 @@ def evalFci : Sexp → Option FciB
   | .list (.atom "rpsi" :: calls) => do
     let b ← calls.foldlM (fun (b : RpsiBuilder) c =>
       match c with
-      | .list [.atom "payload_type", n] => do pure { b with payloadType := u8 (← n.toNat?) }
+      | .list [.atom "payload_type", n] => do pure (b.setPayloadType (u8 (← n.toNat?)))
       | .list [.atom "native_data", d, k] => do pure (b.nativeData (← d.toBytes?) (u8 (← k.toNat?)))
       | .list [.atom "native_data_owned", d, k] => do pure (b.nativeDataOwned (← d.toBytes?) (u8 (← k.toNat?)))
       | _ => none) {}
@@ -103,13 +104,13 @@ def evalFci : Sexp → Option FciB
 def evalFb (k : FbKind) (mode : String) (fci : Sexp) (calls : List Sexp) : Option Cfg :=
   if mode == "borrowed" || mode == "owned" then do
     let f ← evalFci fci
-    let (p, s, m) ← calls.foldlM (fun (st : UInt8 × UInt32 × UInt32) c =>
+    let b ← calls.foldlM (fun (b : FbBuilder) c =>
       match c with
-      | .list [.atom "padding", n] => do pure (u8 (← n.toNat?), st.2.1, st.2.2)
-      | .list [.atom "sender_ssrc", n] => do pure (st.1, u32 (← n.toNat?), st.2.2)
-      | .list [.atom "media_ssrc", n] => do pure (st.1, st.2.1, u32 (← n.toNat?))
-      | _ => none) ((0 : UInt8), (0 : UInt32), (0 : UInt32))
-    pure (.fb k f p s m)
+      | .list [.atom "padding", n] => do pure (b.setPadding (u8 (← n.toNat?)))
+      | .list [.atom "sender_ssrc", n] => do pure (b.setSenderSsrc (u32 (← n.toNat?)))
+      | .list [.atom "media_ssrc", n] => do pure (b.setMediaSsrc (u32 (← n.toNat?)))
+      | _ => none) (FbBuilder.new k f.toFci)
+    pure (.fb k f b.padding b.senderSsrc b.mediaSsrc)
   else none
 
 partial def evalBuilder : Sexp → Option Cfg
@@ -118,56 +119,55 @@ partial def evalBuilder : Sexp → Option Cfg
     let n ← name.toBytes?
     let b ← calls.foldlM (fun (b : AppBuilder) c =>
       match c with
-      | .list [.atom "padding", n] => do pure { b with padding := u8 (← n.toNat?) }
-      | .list [.atom "subtype", n] => do pure { b with subtype := u8 (← n.toNat?) }
-      | .list [.atom "data", d] => do pure { b with data := (← d.toBytes?) }
-      | _ => none) { ssrc := u32 s, name := n }
+      | .list [.atom "padding", n] => do pure (b.setPadding (u8 (← n.toNat?)))
+      | .list [.atom "subtype", n] => do pure (b.setSubtype (u8 (← n.toNat?)))
+      | .list [.atom "data", d] => do pure (b.setData (← d.toBytes?))
+      | _ => none) (AppBuilder.new (u32 s) n)
     pure (.app b)
   | .list (.atom "bye" :: calls) => do
     let b ← calls.foldlM (fun (b : ByeBuilder) c =>
       match c with
-      | .list [.atom "padding", n] => do pure { b with padding := u8 (← n.toNat?) }
-      | .list [.atom "add_source", n] => do pure { b with sources := b.sources ++ [u32 (← n.toNat?)] }
-      | .list [.atom "reason", r] => do pure { b with reason := (← r.toBytes?) }
-      | .list [.atom "reason_owned", r] => do
-        pure { padding := b.padding, sources := b.sources, reason := (← r.toBytes?) }
-      | _ => none) {}
+      | .list [.atom "padding", n] => do pure (b.setPadding (u8 (← n.toNat?)))
+      | .list [.atom "add_source", n] => do pure (b.addSource (u32 (← n.toNat?)))
+      | .list [.atom "reason", r] => do pure (b.setReason (← r.toBytes?))
+      | .list [.atom "reason_owned", r] => do pure (b.reasonOwned (← r.toBytes?))
+      | _ => none) ByeBuilder.new
     pure (.bye b)
   | .list (.atom "rr" :: ssrc :: calls) => do
     let s ← ssrc.toNat?
     let b ← calls.foldlM (fun (b : RrBuilder) c =>
       match c with
-      | .list [.atom "padding", n] => do pure { b with padding := u8 (← n.toNat?) }
-      | .list [.atom "add_report_block", rb] => do pure { b with reportBlocks := b.reportBlocks ++ [← evalRb rb] }
-      | _ => none) { ssrc := u32 s }
+      | .list [.atom "padding", n] => do pure (b.setPadding (u8 (← n.toNat?)))
+      | .list [.atom "add_report_block", rb] => do pure (b.addReportBlock (← evalRb rb))
+      | _ => none) (RrBuilder.new (u32 s))
     pure (.rr b)
   | .list (.atom "sr" :: ssrc :: calls) => do
     let s ← ssrc.toNat?
     let b ← calls.foldlM (fun (b : SrBuilder) c =>
       match c with
-      | .list [.atom "padding", n] => do pure { b with padding := u8 (← n.toNat?) }
-      | .list [.atom "ntp", n] => do pure { b with ntp := u64 (← n.toNat?) }
-      | .list [.atom "rtp", n] => do pure { b with rtp := u32 (← n.toNat?) }
-      | .list [.atom "packet_count", n] => do pure { b with packetCount := u32 (← n.toNat?) }
-      | .list [.atom "octet_count", n] => do pure { b with octetCount := u32 (← n.toNat?) }
-      | .list [.atom "add_report_block", rb] => do pure { b with reportBlocks := b.reportBlocks ++ [← evalRb rb] }
-      | _ => none) { ssrc := u32 s }
+      | .list [.atom "padding", n] => do pure (b.setPadding (u8 (← n.toNat?)))
+      | .list [.atom "ntp", n] => do pure (b.setNtp (u64 (← n.toNat?)))
+      | .list [.atom "rtp", n] => do pure (b.setRtp (u32 (← n.toNat?)))
+      | .list [.atom "packet_count", n] => do pure (b.setPacketCount (u32 (← n.toNat?)))
+      | .list [.atom "octet_count", n] => do pure (b.setOctetCount (u32 (← n.toNat?)))
+      | .list [.atom "add_report_block", rb] => do pure (b.addReportBlock (← evalRb rb))
+      | _ => none) (SrBuilder.new (u32 s))
     pure (.sr b)
   | .list (.atom "sdes" :: calls) => do
     let b ← calls.foldlM (fun (b : SdesBuilder) c =>
       match c with
-      | .list [.atom "padding", n] => do pure { b with padding := u8 (← n.toNat?) }
-      | .list [.atom "add_chunk", ch] => do pure { b with chunks := b.chunks ++ [← evalChunk ch] }
-      | _ => none) {}
+      | .list [.atom "padding", n] => do pure (b.setPadding (u8 (← n.toNat?)))
+      | .list [.atom "add_chunk", ch] => do pure (b.addChunk (← evalChunk ch))
+      | _ => none) SdesBuilder.new
     pure (.sdes b)
   | .list (.atom "unknown" :: ty :: data :: calls) => do
     let t ← ty.toNat?
     let d ← data.toBytes?
     let b ← calls.foldlM (fun (b : UnknownBuilder) c =>
       match c with
-      | .list [.atom "padding", n] => do pure { b with padding := u8 (← n.toNat?) }
-      | .list [.atom "count", n] => do pure { b with count := u8 (← n.toNat?) }
-      | _ => none) { type := u8 t, data := d }
+      | .list [.atom "padding", n] => do pure (b.setPadding (u8 (← n.toNat?)))
+      | .list [.atom "count", n] => do pure (b.setCount (u8 (← n.toNat?)))
+      | _ => none) (UnknownBuilder.new (u8 t) d)
     pure (.unknown b)
   | .list (.atom "tfb" :: .atom mode :: fci :: calls) => evalFb FbKind.transport mode fci calls
   | .list (.atom "pfb" :: .atom mode :: fci :: calls) => evalFb FbKind.payload mode fci calls
@@ -185,7 +185,7 @@ partial def evalBuilder : Sexp → Option Cfg
     let bd ← body.toBytes?
     let b ← calls.foldlM (fun (b : CustomBuilder) c =>
       match c with
-      | .list [.atom "padding", n] => do pure { b with padding := u8 (← n.toNat?) }
+      | .list [.atom "padding", n] => do pure (b.setPadding (u8 (← n.toNat?)))
       | _ => none) { pt := u8 p, min := m, body := bd }
     pure (.custom b)
   | s@(.list (.atom "chunk" :: _)) => do pure (.chunk (← evalChunk s))
